@@ -992,7 +992,8 @@ def enum_item(item_seed):
             break
     # keep the enumerated op small: a handful of growth steps
     masses = cfg["fragment_masses"] or {t["name"]: t.get("mass", 50.0) for t in cfg["templates"]}
-    cfg["target"] = 3.5 * (sum(masses.values()) / len(masses))
+    used = [masses[t["name"]] for t in cfg["templates"] if t["name"] in masses]      # the table may list other names too
+    cfg["target"] = 3.5 * (sum(used) / len(used))
     return {"cfg": cfg, "seed": rng.randrange(10 ** 9), "ctor": rng.choice(["shared_dict", "from_string"])}
 
 
